@@ -189,16 +189,14 @@ theorem sendBody_fin_iff {α : Type} (d : Int) (chunks : List (List Nat)) (tr : 
     have hn : ¬ (d ≥ 0 ∧ (chunks.flatten.length : Int) > d) := fun hc => by
       have := h1.mpr hc; simp at this
     simp only [Bool.false_eq_true, if_false, BodyWriter.close, bwCloseShort, hr]
-    by_cases hd : d ≥ 0
-    · simp only [hd, if_true]
-      by_cases hs : d - (chunks.flatten.length : Int) > 0
-      · simp [hs, -List.length_flatten]; omega
-      · simp only [hs, decide_false, Bool.false_eq_true, if_false]
-        cases tr <;> simp [-List.length_flatten] <;> omega
-    · simp only [hd, if_false]
-      have : ¬ d > 0 := by omega
-      simp only [this, decide_false, Bool.false_eq_true, if_false]
-      cases tr <;> simp [-List.length_flatten] <;> omega
+    by_cases hs : (if d ≥ 0 then d - (chunks.flatten.length : Int) else d) > 0
+    · simp only [hs, decide_true, if_true]
+      constructor
+      · intro h; cases h
+      · intro h; split at hs <;> omega
+    · simp only [hs, decide_false, Bool.false_eq_true, if_false]
+      have hok : d < 0 ∨ (chunks.flatten.length : Int) = d := by split at hs <;> omega
+      cases tr <;> exact ⟨fun _ => hok, fun _ => rfl⟩
 
 /-- What is on the wire: only DATA frames (none empty) and — on the FIN path — the trailers; the
 DATA payloads are the supplied bytes (all of them on the FIN path, a prefix after an abort). -/
@@ -256,16 +254,22 @@ private theorem seek_spec {α : Type} (rem : Int) (e : StreamEnd) (fs : List (Fr
     | .err _ => False := by
   induction fs with
   | nil =>
-    cases e <;> simp [seek, brShort, bodyOf, trailerOf]
-    split <;> simp_all <;> omega
+    cases e with
+    | fin =>
+      by_cases h : rem > 0
+      · simp [seek, brShort, h, bodyOf]
+      · simp [seek, brShort, h, bodyOf, trailerOf]; omega
+    | reset => simp [seek, bodyOf, trailerOf]
   | cons f fs ih =>
     cases f with
     | headers h =>
-      simp only [seek, brShort]
-      split <;> simp_all [bodyOf, trailerOf] <;> omega
+      by_cases hr : rem > 0
+      · simp [seek, brShort, hr, bodyOf]
+      · simp [seek, brShort, hr, bodyOf, trailerOf]; omega
     | data p =>
-      simp only [seek, brDataTooLong]
-      split <;> simp_all [bodyOf, trailerOf] <;> omega
+      by_cases hr : rem ≥ 0 ∧ (p.length : Int) > rem
+      · simp [seek, brDataTooLong, hr, bodyOf]; omega
+      · simp [seek, brDataTooLong, hr, bodyOf, trailerOf]; omega
     | unknown t p =>
       simp only [seek, bodyOf, trailerOf]
       generalize seek rem e fs = s at ih ⊢
@@ -333,12 +337,14 @@ private theorem run_spec {α : Type} (ks : List Nat) : ∀ (r : BodyReader α), 
       intro r0 c h0 hrem hend hc hp htr hread
       have hd := deliver_eq r0 c k (by rw [hrem]; exact hc)
       rw [hd] at hread
-      rw [run_cons_ok r _ k ks _ hread]
       obtain ⟨n, hn⟩ : ∃ n, n = min k c.length := ⟨_, rfl⟩
       rw [← hn] at hread
-      obtain ⟨r', hr'⟩ : ∃ r' : BodyReader α, r' = { r0 with cur := some (c.drop n),
-        remain := if r0.remain ≥ 0 then r0.remain - (n : Nat) else r0.remain } := ⟨_, rfl⟩
+      obtain ⟨r', hr'⟩ : ∃ r' : BodyReader α, r' =
+          ⟨if r0.remain ≥ 0 then r0.remain - (n : Nat) else r0.remain, some (c.drop n), r0.rest,
+            r0.ending, r0.err, r0.trailer⟩ := ⟨_, rfl⟩
       rw [← hr'] at hread
+      rw [run_cons_ok r r' k ks _ hread]
+      dsimp only
       have hnle : n ≤ c.length := hn ▸ Nat.min_le_right _ _
       have hp' : pend r' = c.drop n ++ bodyOf r0.rest := by simp [pend, hr']
       have hsplit : pend r = c.take n ++ pend r' := by
@@ -360,7 +366,7 @@ private theorem run_spec {α : Type} (ks : List Nat) : ∀ (r : BodyReader α), 
       refine ⟨⟨tl, by rw [hsplit, i1, List.append_assoc]⟩, ?_, ?_, ?_, ?_, i6⟩
       · intro he
         obtain ⟨a, b, c', d⟩ := i2 he
-        refine ⟨by rw [hsplit, a], ?_, by rw [c', hrest, htr], by rw [← hend', hrest.symm ▸ htr ▸ rfl]; rw [htr, ← hrest]; exact d⟩
+        refine ⟨by rw [hsplit, a], ?_, by rw [c', hrest, htr], by rw [← hend', htr, ← hrest]; exact d⟩
         rw [hrem'] at b
         rw [hlen]
         split at b <;> omega
@@ -470,5 +476,295 @@ private theorem run_spec {α : Type} (ks : List Nat) : ∀ (r : BodyReader α), 
         · rw [hp, a]
         · exact b
         · simp [BodyReader.read, herr, hcur, hsk]
+
+/-- Progress measure: unread body bytes plus frames not yet looked at. -/
+def mu {α : Type} (r : BodyReader α) : Nat := (pend r).length + r.rest.length
+
+private theorem fit_after (rem : Int) (c : List Nat) (n : Nat) (hn : n ≤ c.length)
+    (hc : rem ≥ 0 → (c.length : Int) ≤ rem) :
+    (if rem ≥ 0 then rem - (n : Int) else rem) ≥ 0 →
+      (((c.drop n).length : Nat) : Int) ≤ (if rem ≥ 0 then rem - (n : Int) else rem) := by
+  intro h
+  rw [List.length_drop]
+  split at h
+  · have := hc (by assumption); split <;> omega
+  · split <;> omega
+
+/-- Every `Read` that asks for at least one byte makes progress, so enough of them reach the end. -/
+private theorem run_terminates {α : Type} (ks : List Nat) : ∀ (r : BodyReader α), r.err = none →
+    (r.remain ≥ 0 → ((r.cur.getD []).length : Int) ≤ r.remain) →
+    (∀ k ∈ ks, 0 < k) → mu r < ks.length → (r.run ks).2.1 ≠ none := by
+  induction ks with
+  | nil => intro r _ _ _ h; simp at h
+  | cons k ks ih =>
+    intro r herr hfit hpos hmu
+    have hk : 0 < k := hpos k (by simp)
+    have hpos' : ∀ k' ∈ ks, 0 < k' := fun k' h => hpos k' (by simp [h])
+    have step : ∀ (r0 : BodyReader α) (c : List Nat), r0.err = none → r0.remain = r.remain →
+        (r.remain ≥ 0 → (c.length : Int) ≤ r.remain) → r.read k = deliver r0 c k →
+        (c.length - min k c.length) + (bodyOf r0.rest).length + r0.rest.length < ks.length →
+        (r.run (k :: ks)).2.1 ≠ none := by
+      intro r0 c h0 hrem hc hread hm
+      rw [deliver_eq r0 c k (by rw [hrem]; exact hc)] at hread
+      rw [run_cons_ok r _ k ks _ hread]
+      dsimp only
+      apply ih
+      · exact h0
+      · dsimp only
+        rw [hrem]
+        simpa using fit_after r.remain c (min k c.length) (Nat.min_le_right _ _) hc
+      · exact hpos'
+      · simp only [mu, pend, Option.getD_some, List.length_append, List.length_drop]
+        omega
+    have hsk : r.cur = none ∨ r.cur = some [] →
+        (r.run (k :: ks)).2.1 ≠ none := by
+      intro hcur
+      have hp : pend r = bodyOf r.rest := by rcases hcur with h | h <;> simp [pend, h]
+      have hs := seek_spec r.remain r.ending r.rest
+      cases hsk : seek r.remain r.ending r.rest with
+      | err e =>
+        have hread : r.read k = ({ r with cur := none, err := some e }, [], e) := by
+          rcases hcur with h | h <;> simp [BodyReader.read, herr, h, hsk]
+        rw [hsk] at hs
+        cases e with
+        | ok => exact hs.elim
+        | eof => exact hs.elim
+        | errShort => rw [run_cons_end r _ k ks _ _ (by decide) hread]; simp
+        | errLong => rw [run_cons_end r _ k ks _ _ (by decide) hread]; simp
+        | errReset => rw [run_cons_end r _ k ks _ _ (by decide) hread]; simp
+      | eof t =>
+        have hread : r.read k = ({ r with cur := none, err := some .eof, trailer := t, rest := [] }, [], .eof) := by
+          rcases hcur with h | h <;> simp [BodyReader.read, herr, h, hsk]
+        rw [run_cons_end r _ k ks _ _ (by decide) hread]; simp
+      | data p fs =>
+        rw [hsk] at hs
+        simp only at hs
+        obtain ⟨a, b, c, d⟩ := hs
+        apply step { r with rest := fs } p herr rfl d
+        · rcases hcur with h | h <;> simp [BodyReader.read, herr, h, hsk]
+        · dsimp only
+          have : mu r = (bodyOf r.rest).length + r.rest.length := by simp [mu, hp]
+          rw [a] at this
+          simp only [List.length_append, List.length_cons] at this hmu
+          omega
+    cases hcur : r.cur with
+    | none => exact hsk (Or.inl hcur)
+    | some cur =>
+      cases cur with
+      | nil => exact hsk (Or.inr hcur)
+      | cons c cs =>
+        apply step r (c :: cs) herr rfl
+        · intro h; have := hfit h; simpa [hcur] using this
+        · simp [BodyReader.read, herr, hcur]
+        · have : mu r = (c :: cs).length + (bodyOf r.rest).length + r.rest.length := by
+            simp [mu, pend, hcur]; omega
+          simp only [List.length_cons] at this hmu ⊢
+          omega
+
+private theorem mk0_pend {α : Type} (d : Int) (fs : List (Frame α)) (e : StreamEnd) :
+    pend (BodyReader.mk0 d fs e) = bodyOf fs := by simp [pend, BodyReader.mk0]
+
+/-- Reading side, all frame chunkings and all read schedules: what the caller gets is a prefix of
+the body on the stream — never anything else, never more. -/
+theorem read_prefix {α : Type} (d : Int) (fs : List (Frame α)) (e : StreamEnd) (ks : List Nat) :
+    ∃ tl, bodyOf fs = ((BodyReader.mk0 d fs e).run ks).1 ++ tl := by
+  have := (run_spec ks (BodyReader.mk0 d fs e) rfl (by intro h; simpa [BodyReader.mk0] using h)).1
+  rwa [mk0_pend] at this
+
+/-- A clean EOF is reported only after the WHOLE body was handed out, only when its length is the
+declared one (or none was declared), and only at a FIN or a trailer section; the trailers are the
+ones on the stream. -/
+theorem read_eof_exact {α : Type} (d : Int) (fs : List (Frame α)) (e : StreamEnd) (ks : List Nat)
+    (h : ((BodyReader.mk0 d fs e).run ks).2.1 = some .eof) :
+    ((BodyReader.mk0 d fs e).run ks).1 = bodyOf fs ∧
+    (d < 0 ∨ d = ((bodyOf fs).length : Int)) ∧
+    ((BodyReader.mk0 d fs e).run ks).2.2 = trailerOf fs ∧
+    (e = .fin ∨ (trailerOf fs).isSome) := by
+  have := (run_spec ks (BodyReader.mk0 d fs e) rfl (by intro h; simpa [BodyReader.mk0] using h)).2.1 h
+  rw [mk0_pend] at this
+  exact this
+
+/-- A body whose length disagrees with its declared Content-Length is never reported as a clean
+EOF — for every chunking into DATA frames and every sequence of read sizes. -/
+theorem read_mismatch_never_clean {α : Type} (d : Int) (fs : List (Frame α)) (e : StreamEnd)
+    (ks : List Nat) (hd : d ≥ 0) (hne : ((bodyOf fs).length : Int) ≠ d) :
+    ((BodyReader.mk0 d fs e).run ks).2.1 ≠ some .eof := by
+  intro h
+  have := (read_eof_exact d fs e ks h).2.1
+  omega
+
+/-- The errors mean what they say: "shorter" only when the declared length exceeds the body (and all
+of the body was handed out first), "longer" only when the body exceeds it, "reset" only on a reset stream. -/
+theorem read_error_sound {α : Type} (d : Int) (fs : List (Frame α)) (e : StreamEnd) (ks : List Nat) :
+    (((BodyReader.mk0 d fs e).run ks).2.1 = some .errShort →
+        ((BodyReader.mk0 d fs e).run ks).1 = bodyOf fs ∧ d > ((bodyOf fs).length : Int)) ∧
+    (((BodyReader.mk0 d fs e).run ks).2.1 = some .errLong → d ≥ 0 ∧ ((bodyOf fs).length : Int) > d) ∧
+    (((BodyReader.mk0 d fs e).run ks).2.1 = some .errReset → e = .reset ∧ trailerOf fs = none) := by
+  have h := run_spec ks (BodyReader.mk0 d fs e) rfl (by intro h; simpa [BodyReader.mk0] using h)
+  rw [mk0_pend] at h
+  exact ⟨h.2.2.1, h.2.2.2.1, fun he => (h.2.2.2.2.1 he).2⟩
+
+/-- Completeness for a matching (or undeclared) length on a stream that ends with FIN: any schedule
+of non-empty reads that is long enough returns exactly the body, then a clean EOF, and the trailers. -/
+theorem read_complete {α : Type} (d : Int) (fs : List (Frame α)) (ks : List Nat)
+    (hpos : ∀ k ∈ ks, 0 < k) (hlen : (bodyOf fs).length + fs.length < ks.length)
+    (hok : d < 0 ∨ d = ((bodyOf fs).length : Int)) :
+    ((BodyReader.mk0 d fs .fin).run ks).1 = bodyOf fs ∧
+    ((BodyReader.mk0 d fs .fin).run ks).2.1 = some .eof ∧
+    ((BodyReader.mk0 d fs .fin).run ks).2.2 = trailerOf fs := by
+  have hterm := run_terminates ks (BodyReader.mk0 d fs .fin) rfl
+    (by intro h; simpa [BodyReader.mk0] using h) hpos (by unfold mu; rw [mk0_pend]; exact hlen)
+  have hs := read_error_sound d fs .fin ks
+  have hsp := run_spec ks (BodyReader.mk0 d fs .fin) rfl (by intro h; simpa [BodyReader.mk0] using h)
+  cases hres : ((BodyReader.mk0 d fs .fin).run ks).2.1 with
+  | none => exact absurd hres hterm
+  | some e =>
+    cases e with
+    | ok => exact absurd hres hsp.2.2.2.2.2
+    | eof =>
+      have := read_eof_exact d fs .fin ks hres
+      exact ⟨this.1, rfl, this.2.2.1⟩
+    | errShort => have := (hs.1 hres).2; omega
+    | errLong => have := hs.2.1 hres; omega
+    | errReset => have := (hs.2.2 hres).1; cases this
+
+/-- Completeness for a mismatch: any long-enough schedule of non-empty reads ends in one of the two
+Content-Length errors (H3_MESSAGE_ERROR), never in a clean EOF and never by running out of data. -/
+theorem read_mismatch_errors {α : Type} (d : Int) (fs : List (Frame α)) (ks : List Nat)
+    (hpos : ∀ k ∈ ks, 0 < k) (hlen : (bodyOf fs).length + fs.length < ks.length)
+    (hd : d ≥ 0) (hne : ((bodyOf fs).length : Int) ≠ d) :
+    ((BodyReader.mk0 d fs .fin).run ks).2.1 = some .errShort ∨
+    ((BodyReader.mk0 d fs .fin).run ks).2.1 = some .errLong := by
+  have hterm := run_terminates ks (BodyReader.mk0 d fs .fin) rfl
+    (by intro h; simpa [BodyReader.mk0] using h) hpos (by unfold mu; rw [mk0_pend]; exact hlen)
+  have hs := read_error_sound d fs .fin ks
+  have hsp := run_spec ks (BodyReader.mk0 d fs .fin) rfl (by intro h; simpa [BodyReader.mk0] using h)
+  cases hres : ((BodyReader.mk0 d fs .fin).run ks).2.1 with
+  | none => exact absurd hres hterm
+  | some e =>
+    cases e with
+    | ok => exact absurd hres hsp.2.2.2.2.2
+    | eof => exact absurd hres (read_mismatch_never_clean d fs .fin ks hd hne)
+    | errShort => exact Or.inl rfl
+    | errLong => exact Or.inr rfl
+    | errReset => have := (hs.2.2 hres).1; cases this
+
+/-! ## Composition: client body writer → QUIC stream → server body reader -/
+
+/-- The assumption about QUIC (property C19): a stream hands the receiver exactly the frames that
+were written, in order, followed by the same terminal event. -/
+def ReliableOrdered {α : Type} (sent recv : List (Frame α) × StreamEnd) : Prop := recv = sent
+
+/-- Request direction, every chunking of the writes and every schedule of reads: the handler only
+ever sees a prefix of the supplied bytes; a clean EOF means it saw all of them, the supplied length
+was the declared one and the trailers are the submitted ones; a mismatch never yields a clean EOF. -/
+theorem e2e_request {α : Type} (d : Int) (chunks : List (List Nat)) (tr : Option α)
+    (recv : List (Frame α) × StreamEnd)
+    (hq : ReliableOrdered ((sendBody d chunks tr).frames, (sendBody d chunks tr).ending) recv)
+    (ks : List Nat) :
+    (∃ tl, chunks.flatten = ((BodyReader.mk0 d recv.1 recv.2).run ks).1 ++ tl) ∧
+    (((BodyReader.mk0 d recv.1 recv.2).run ks).2.1 = some .eof →
+        (d < 0 ∨ (chunks.flatten.length : Int) = d) ∧
+        ((BodyReader.mk0 d recv.1 recv.2).run ks).1 = chunks.flatten ∧
+        ((BodyReader.mk0 d recv.1 recv.2).run ks).2.2 = tr) ∧
+    ((d ≥ 0 ∧ (chunks.flatten.length : Int) ≠ d) →
+        ((BodyReader.mk0 d recv.1 recv.2).run ks).2.1 ≠ some .eof) := by
+  unfold ReliableOrdered at hq
+  subst hq
+  dsimp only
+  have hf := sendBody_frames d chunks tr
+  dsimp only at hf
+  obtain ⟨hfin, hreset, ⟨tl2, hpre⟩⟩ := hf
+  have key : ((BodyReader.mk0 d (sendBody d chunks tr).frames (sendBody d chunks tr).ending).run ks).2.1
+      = some .eof → (sendBody d chunks tr).ending = .fin := by
+    intro he
+    have := (read_eof_exact _ _ _ ks he).2.2.2
+    rcases this with h | h
+    · exact h
+    · cases hend : (sendBody d chunks tr).ending with
+      | fin => rfl
+      | reset => rw [hreset hend] at h; simp at h
+  refine ⟨?_, ?_, ?_⟩
+  · obtain ⟨tl, h⟩ := read_prefix d (sendBody d chunks tr).frames (sendBody d chunks tr).ending ks
+    exact ⟨tl ++ tl2, by rw [hpre, h, List.append_assoc]⟩
+  · intro he
+    have hfin' := key he
+    obtain ⟨hb, ht⟩ := hfin hfin'
+    have hx := read_eof_exact _ _ _ ks he
+    exact ⟨(sendBody_fin_iff d chunks tr).mp hfin', by rw [hx.1, hb], by rw [hx.2.2.1, ht]⟩
+  · intro ⟨hd, hne⟩ he
+    have := (sendBody_fin_iff d chunks tr).mp (key he)
+    omega
+
+/-- Request direction, completeness: when the supplied length is the declared one (or none is
+declared), every long-enough schedule of non-empty reads delivers exactly the supplied bytes, a
+clean EOF and the submitted trailers. -/
+theorem e2e_request_complete {α : Type} (d : Int) (chunks : List (List Nat)) (tr : Option α)
+    (recv : List (Frame α) × StreamEnd)
+    (hq : ReliableOrdered ((sendBody d chunks tr).frames, (sendBody d chunks tr).ending) recv)
+    (ks : List Nat) (hpos : ∀ k ∈ ks, 0 < k)
+    (hlen : chunks.flatten.length + (sendBody d chunks tr).frames.length < ks.length)
+    (hok : d < 0 ∨ (chunks.flatten.length : Int) = d) :
+    ((BodyReader.mk0 d recv.1 recv.2).run ks).1 = chunks.flatten ∧
+    ((BodyReader.mk0 d recv.1 recv.2).run ks).2.1 = some .eof ∧
+    ((BodyReader.mk0 d recv.1 recv.2).run ks).2.2 = tr := by
+  unfold ReliableOrdered at hq
+  subst hq
+  dsimp only
+  have hfin := (sendBody_fin_iff d chunks tr).mpr hok
+  obtain ⟨hb, ht⟩ := (sendBody_frames d chunks tr).1 hfin
+  rw [hfin]
+  have := read_complete d (sendBody d chunks tr).frames ks hpos (by rw [hb]; exact hlen)
+    (by rw [hb]; omega)
+  rw [hb, ht] at this
+  exact this
+
+/-! ## `http.NoBody` selection — known finding `declared-zero-body-ignored` -/
+
+/-- The full statement for the server side: whatever frames a request stream carries, a DATA total
+different from the declared Content-Length is never read as a clean EOF by the handler. -/
+def ServerNoSilentMismatch : Prop :=
+  ∀ (cl : Int) (ntr : Nat) (fs : List (Frame Unit)) (ks : List Nat),
+    cl ≥ 0 → ((bodyOf fs).length : Int) ≠ cl →
+    (recvBody (serverBodyKind cl ntr) fs .fin ks).2.1 ≠ some .eof
+
+/-- The same for the client side (response body). -/
+def ClientNoSilentMismatch : Prop :=
+  ∀ (cl : Int) (isHead : Bool) (ntr : Nat) (fs : List (Frame Unit)) (ks : List Nat),
+    cl ≥ 0 → isHead = false → ((bodyOf fs).length : Int) ≠ cl →
+    (recvBody (clientBodyKind cl isHead ntr) fs .fin ks).2.1 ≠ some .eof
+
+/-- The statement is FALSE on the code as it is: `Content-Length: 0` without declared trailers makes
+both sides use `http.NoBody`, which reports a clean EOF without looking at the stream. -/
+theorem serverNoSilentMismatch_full_false : ¬ ServerNoSilentMismatch := by
+  intro h
+  exact h 0 0 [Frame.data [7]] [1] (by decide) (by decide) (by decide)
+
+theorem clientNoSilentMismatch_full_false : ¬ ClientNoSilentMismatch := by
+  intro h
+  exact h 0 false 0 [Frame.data [7]] [1] (by decide) rfl (by decide) (by decide)
+
+/-- Outside the region `Content-Length = 0 ∧ no declared trailers` the statement holds. -/
+theorem serverNoSilentMismatch_holds_partial (cl : Int) (ntr : Nat) (fs : List (Frame Unit))
+    (ks : List Nat) (hcl : cl ≥ 0) (hne : ((bodyOf fs).length : Int) ≠ cl)
+    (hregion : ¬ (cl = 0 ∧ ntr = 0)) :
+    (recvBody (serverBodyKind cl ntr) fs .fin ks).2.1 ≠ some .eof := by
+  have hk : serverBodyKind cl ntr = .reader cl := by
+    unfold serverBodyKind srvHasBody
+    simp
+    omega
+  rw [hk]
+  exact read_mismatch_never_clean cl fs .fin ks hcl hne
+
+theorem clientNoSilentMismatch_holds_partial (cl : Int) (ntr : Nat) (fs : List (Frame Unit))
+    (ks : List Nat) (hcl : cl ≥ 0) (hne : ((bodyOf fs).length : Int) ≠ cl)
+    (hregion : ¬ (cl = 0 ∧ ntr = 0)) :
+    (recvBody (clientBodyKind cl false ntr) fs .fin ks).2.1 ≠ some .eof := by
+  have hk : clientBodyKind cl false ntr = .reader cl := by
+    unfold clientBodyKind cliHasBody
+    simp
+    omega
+  rw [hk]
+  exact read_mismatch_never_clean cl fs .fin ks hcl hne
 
 end NetVerif.Proofs.C34
